@@ -94,6 +94,24 @@ theorem genuine_spec (p : Pat) (evs : List Event) (m : Match) (h : Genuine p evs
     have := (List.all_eq_true.mp h4) g hg
     simpa [h6, h7] using this
 
+/-- the witness of the repaired defect C01-trailing-all-selfref (`A as a -> all B where x > b.x as b` on
+B.x = 5, 3, 9): the judge rejects the match `[A, B5, B3]` the unrepaired engine emitted and accepts `[A, B5, B9]`. -/
+theorem trailing_selfref_witness :
+    c01WitnessPat.inFragment = true ∧ Genuine c01WitnessPat c01WitnessEvs c01WitnessBad = false ∧
+    Genuine c01WitnessPat c01WitnessEvs c01WitnessGood = true := by
+  refine ⟨by decide, ?_, ?_⟩ <;>
+    simp [Genuine, c01WitnessPat, c01WitnessEvs, c01WitnessBad, c01WitnessGood, explains, stepOk, Step.postponed,
+      selfRef, evalPred, capsOf, Entry.binding, Event.get, cmpVals, valCompare, noNegBetween, negHit, keyOf,
+      List.isSublist, List.lookup] <;> decide
+
+/-- non-vacuity of `match_genuine`: the engine does emit matches — here exactly one, on a partitioned pattern
+with a cross-alias filter and a `.not` clause (`c01ExamplePat`, `c01ExampleEvs`; counted through the C02 refinement). -/
+example : c01ExamplePat.inFragment = true ∧ Sorted c01ExampleEvs ∧ (matchesOf c01ExamplePat {} c01ExampleEvs).length = 1 := by
+  refine ⟨by decide, by simp [Sorted, c01ExampleEvs], ?_⟩
+  have h := matches_perm_earliestNF (p := c01ExamplePat) (cfg := {}) (evs := c01ExampleEvs) (by decide)
+    (noDrop_of_length (by decide))
+  rw [h.length_eq]; decide
+
 /-- non-vacuity: a partitioned three-step pattern with an `all` step, a cross-alias filter and a `.not`
 clause lies in the fragment, and a stream with increasing indices is `Sorted`. -/
 example :
